@@ -186,6 +186,35 @@ def solve_records(records, timeout_ms, jobs):
     return records
 
 
+def _cross_worker(t):
+    from . import smt
+    i, smt2 = t
+    r, dt = smt.solve_smt2_cli(smt2, 'cvc5', 10.0)
+    return i, r, dt
+
+
+def cross_check(records, seed, jobs, sample=300):
+    """thorough tier: a seeded sample of the obligations z3 discharged is given to cvc5 as well (only queries without z3
+    lambdas can be read by cvc5).  cvc5 answering `sat` where z3 answered `unsat` is a checker error (exit 3)."""
+    import random
+    cand = [i for i, r in enumerate(records) if r['status'] == 'discharged' and not r['expect_sat'] and not r.get('trivial')
+            and r.get('backend', '').startswith('z3') and '(lambda' not in r['smt2']]
+    random.Random(seed).shuffle(cand)
+    cand = cand[:sample]
+    out = {'sampled': len(cand), 'cvc5_unsat': 0, 'cvc5_unknown': 0, 'disagreements': []}
+    if not cand:
+        return out
+    with mp.get_context('fork').Pool(max(1, min(jobs, len(cand)))) as pool:
+        for i, r, dt in pool.imap_unordered(_cross_worker, [(i, records[i]['smt2']) for i in cand], chunksize=4):
+            if r == 'unsat':
+                out['cvc5_unsat'] += 1
+            elif r == 'sat':
+                out['disagreements'].append(records[i]['name'])
+            else:
+                out['cvc5_unknown'] += 1
+    return out
+
+
 def settle_covers(records):
     """Vacuity guard per function: its requires must be satisfiable on at least one path; case-split paths that
     contradict the requires (e.g. an optional parameter that the contract says is present) are dropped."""
@@ -259,6 +288,10 @@ def run_property(eng, prop, args):
             print('   vcgen %6.1fs %s' % (dt, t))
     solve_records(records, args.timeout, args.jobs)
     records = settle_covers(records)
+    args.cross = cross_check(records, seed, args.jobs) if tier == 'thorough' else None
+    if args.cross and args.cross.get('disagreements'):
+        crashes.append(('solver cross-check', 'cvc5 finds a model for obligations z3 reported unsat: %s'
+                        % args.cross['disagreements'][:3]))
     return finish(eng, prop, tier, seed, targets, records, problems, crashes, missing, t0, gen_s, args)
 
 
@@ -434,6 +467,7 @@ def write_evidence(eng, prop, tier, seed, targets, records, problems, known_hits
         'known_finding_obligations': sorted({r['name'] for _, r in known_hits}),
         'samples': samples,
         'bounded': [{k: v for k, v in b.items() if k != 'samples'} for b in bounded],
+        'solver_cross_check': getattr(args, 'cross', None) or 'thorough tier: a sample of z3-discharged obligations is re-solved by cvc5',
         'lean_laws': getattr(args, 'lean', None) or
         'laws of kind "lemma" are re-proved by the thorough tier (tools/lean_check.py, lemmas/lean/SeqLaws.lean)',
     }
